@@ -54,6 +54,15 @@ def dispatcher(prog, fi, min_arms=2) -> Dispatcher:
         if isinstance(st, ast.If) and any(a.node is st or _in_chain(st, a.node) for a in arms):
             last = i
     default = list(block[last + 1:]) if last is not None else []
+    # guard-clause form of the last arm:  `if not isinstance(x, K): <leaves>` followed by the code for K  ==
+    # `if isinstance(x, K): <code for K>  else: <leaves>`
+    if last is not None and default:
+        st = block[last]
+        neg = [a for a in arms if a.node is st and a.negated and not a.extra]
+        if neg and not st.orelse and terminal(st.body) is not None and isinstance(st.test, ast.UnaryOp) and isinstance(st.test.op, ast.Not):
+            a0 = neg[0]
+            arms = [a for a in arms if a is not a0] + [Arm(a0.kinds, a0.subject, st.test.operand, default, st)]
+            return Dispatcher(fi, subj, arms, block, list(st.body))
     if last is not None:
         _arms, els = if_chain(block[last])
         if els and not any(a.nested_in_else for a in arms):
